@@ -117,7 +117,35 @@ def _pid(mk):
         return ['n', ('otherdb', oid)]
     if f == 'multi_class':
         return ['m', ('otherdb', oid, _K)]
+    if f == 'oid_class_gone':
+        return (oid, gone_class())
+    if f == 'multi_class_gone':
+        return ['m', ('otherdb', oid, gone_class())]
     raise ValueError(f)
+
+
+GONE = ('zverif_module_that_is_gone', 'Gone')
+_gone = []
+
+
+def gone_class():
+    """A persistent class that can be pickled by reference now (its module is registered while records are made)
+    and cannot be imported when the record is read: call gone_forget() before reading."""
+    import sys
+    import types
+    import persistent
+    if not _gone:
+        m = types.ModuleType(GONE[0])
+        k = type(GONE[1], (persistent.Persistent,), {'__module__': GONE[0]})
+        setattr(m, GONE[1], k)
+        _gone.append((m, k))
+    sys.modules[GONE[0]] = _gone[0][0]
+    return _gone[0][1]
+
+
+def gone_forget():
+    import sys
+    sys.modules.pop(GONE[0], None)
 
 
 def make_record(fmts, shape):
